@@ -59,6 +59,7 @@ inductive Frag : Node → Prop
       (hg : ∀ p, p ∈ pairs → Frag p.1) (hb : ∀ p, p ∈ pairs → Frag p.2) : Frag n
   | loopGuard (n : Node) (t : Tok) (c0 body : Node) (ht : n.tok = some t) (h : n.name = "loop")
       (hc : n.children = [some c0, some body]) (h0 : c0.name = "guard") (f0 : Frag c0) (fb : Frag body) : Frag n
+  | istring (n : Node) (t : Tok) (ht : n.tok = some t) (h : n.name = "string") : Frag n
   | inert (n : Node) (t : Tok) (ht : n.tok = some t)
       (h : n.name = "like" ∨ n.name = "kvp" ∨ n.name = "preset" ∨ n.name = "params" ∨ n.name = "funccall" ∨
            n.name = "compaccess" ∨ n.name = "as" ∨ n.name = "except" ∨ n.name = "otherwise" ∨ n.name = "finally" ∨
@@ -507,6 +508,34 @@ theorem evalLoopGuard_step (sc : Nat) (n c0 body : Node) (t : Tok) (ht : n.tok =
   refine NPQ.bind _ _ (fun _ => True) _ (scopeName_np n t ht) (fun _ _ => ?_)
   refine NPQ.bind _ _ (fun _ => True) _ (newChild_np _ _) (fun ls _ => ?_)
   exact withFreshIs_np _ (guardLoop_np _ _ (ih ls c0 f0) (ih ls body fb) g)
+theorem interpolate_any (sc : Nat) (n : Node) (t : Tok) (ht : n.tok = some t) :
+    ∀ k, k ≤ g + 1 → ∀ rest, NP (interpolate k sc n rest) := by
+  intro k; induction k with
+  | zero => intro _ rest; unfold interpolate; np
+  | succ k ihk =>
+    intro hk rest
+    have ihk' := ihk (by omega)
+    unfold interpolate
+    split
+    · np
+    · try dsimp only []
+      split
+      · np
+      · try dsimp only []
+        refine NPQ.bind (get : M St) _ Inv _ NPQ.get (fun st hst => ?_)
+        refine NPQ.bind _ _ (fun _ => True) _ ?_ (fun repl _ => ?_)
+        · split
+          · np
+          · np
+          · rename_i heq
+            have fa := hst.2 _ _ (List.mem_of_find?_eq_some heq)
+            refine NPQ.bind _ _ (fun _ => True) _ (scopeName_np n t ht) (fun _ _ => ?_)
+            refine NPQ.bind _ _ (fun _ => True) _ (newChild_np _ _) (fun cs _ => ?_)
+            refine NPQ.bind _ _ _ _ (NPQ.attemptE _ _ (withFreshIs_np _ (ihs k (by omega) cs _ fa))) (fun r hr => ?_)
+            cases r with
+            | ok v => dsimp only []; np
+            | error e => have he : e ≠ Sig.panic := hr; dsimp only []; np
+        · np
 end ops
 
 theorem eval_frag_np : ∀ (f sc : Nat) (n : Node), Frag n → NP (eval f sc n) := by
@@ -595,6 +624,11 @@ theorem eval_frag_np : ∀ (f sc : Nat) (n : Node), Frag n → NP (eval f sc n) 
         cases f with
         | zero => unfold evalLoop; np
         | succ f' => exact evalLoopGuard_step f' (fun g'' hg => ihs g'' (by omega)) sc n c0 body t ht hc h0 f0 fb
+      | istring n t ht h =>
+        unfold eval; simp [h, tokOf, ht]
+        split
+        · exact NPQ.map _ _ (interpolate_any f ihs sc n t ht f (by omega) _)
+        · np
       | inert n t ht h =>
         rcases h with h | h | h | h | h | h | h | h | h | h | h | h | h <;> (unfold eval; simp [h]; np)
 
